@@ -104,6 +104,12 @@ func main() {
 	do("runtime/time.go", []patch{{
 		"\t\t\tt.rand = cheaprand()\n",
 		"\t\t\tt.rand = simselectn(1 << 31)\n",
+	}, {
+		// 2d. (see 2c) a bubble timer armed for an instant that is not in the future would fire without the clock
+		// moving at all; computation takes no fake time, so a loop that waits "until the pacing budget has grown"
+		// with such a timer never ends (quic-go's pacer). No timer fires sooner than 1 microsecond after it was armed.
+		"\twake := false\n\tpending := t.when > 0\n\tt.when = when\n",
+		"\twake := false\n\tpending := t.when > 0\n\tif t.isFake && when > 0 {\n\t\tif b := getg().bubble; b != nil && when <= b.now {\n\t\t\twhen = b.now + 1000\n\t\t}\n\t}\n\tt.when = when\n",
 	}})
 
 	// 2b. sync.Mutex starvation mode is entered after 1ms of *real* waiting time, which makes lock
